@@ -172,11 +172,12 @@ def cmp_rel(obs, ref, rtol_pass=1e-9, rtol_viol=1e-5):
 
 class Opd:
     """An operand advanced in lock-step: real object (Quantity or plain) + plain payload + model exponent vector."""
-    __slots__ = ('real', 'plain', 'vec', 'role', 'isfn', 'evaluable')
+    __slots__ = ('real', 'plain', 'vec', 'role', 'isfn', 'evaluable', 'dlevel')
 
     def __init__(self, real, plain, vec, role='', isfn=False):
         self.real, self.plain, self.vec, self.role, self.isfn = real, plain, vec, role, isfn
         self.evaluable = True
+        self.dlevel = 0      # how many spatial derivatives deep (bounds the cost of symbolic differentiation)
 
     @property
     def shape(self):
